@@ -127,7 +127,7 @@ func cmdVerify(args []string) {
 				if *explain && o.Result != "unsat" {
 					explainObligation(r, o, solveOpts{timeoutMs: *timeout, dumpDir: *dump})
 				}
-				if o.Result != "unsat" && o.Result != "sat" {
+				if o.Result != "unsat" && (o.Result != "sat" || *explain) {
 					fmt.Printf("           %s\n", strings.ReplaceAll(strings.TrimSpace(o.Output), "\n", "\n           "))
 				}
 			}
